@@ -11,7 +11,8 @@
 From RV Require Import Base.
 From RV.Model Require Import Utf8 Indexer CodePointSet Insn IR Optimizer Unfold Emit.
 From RV.Spec Require Import IRSem IRShape.
-From RV.Proofs Require Import OptWalk OptTerm OptTotal.
+From RV.Model Require Import ClassSet.
+From RV.Proofs Require Import OptWalk OptTerm OptTotal Closure ClassAtom.
 
 (* every pass reaches its fixpoint: there is a fuel from which on the loop returns one and the same result, and that
    result is not "out of fuel" *)
@@ -46,6 +47,14 @@ Proof. exact try_dup_ok. Qed.
 Theorem c07_optimize_total : forall u16 n, qok n = true ->
   exists F n', qok n' = true /\ ng n' = ng n /\ forall fuel, (F <= fuel)%nat -> optimize_with fuel u16 n = Ok n'.
 Proof. exact optimize_total. Qed.
+
+(* one panic site of the parser: Parser::char_node panics when the case expansion of a literal has more than four
+   members ("Unicode case fold exceeded maximum expansion"); it has between one and four, for every code point, in
+   both modes, so the panic is unreachable (the same bound keeps literal.rs and the emitter's CharSet from theirs) *)
+Theorem c07_case_expansion_is_small : forall c icase unicode, (1 <= length (expand_code_point c icase unicode) <= 4)%nat.
+Proof. exact expand_code_point_length. Qed.
+Theorem c07_char_node_no_panic : forall icase unicode c, exists n, char_node icase unicode c = Ok n.
+Proof. exact char_node_total. Qed.
 
 (* Non-vacuity: (?:(?:a{2}){2}){2}b+ is in the class, and the fuel-200 model computes its optimized form (decat runs
    before the unrolling, so the unrolled bodies stay nested) *)
